@@ -109,6 +109,9 @@ func (n *Node) mode() fs.FileMode {
 type FS struct {
 	Root          *Node // Root.Name is ignored
 	NoReadDirFile bool  // directories opened do not implement fs.ReadDirFile (fallback path of the walker)
+	// NilEmptyListing makes ReadDir return a nil slice (not an empty one) for an empty directory,
+	// which fs.ReadDirFS permits.
+	NilEmptyListing bool
 	Faults        map[string]error
 
 	mu  sync.Mutex
@@ -257,6 +260,14 @@ func (m *FS) ReadDir(name string) ([]fs.DirEntry, error) {
 	out := make([]fs.DirEntry, 0, len(n.Children))
 	for _, c := range n.Children {
 		out = append(out, info{c.Name, c})
+	}
+	// a listing that fails part-way: fs.ReadDirFS allows returning the entries read so far
+	// together with the error
+	if err := m.site("readdirfs-mid", name); err != nil {
+		return out[:len(out)/2], err
+	}
+	if len(out) == 0 && m.NilEmptyListing {
+		return nil, nil
 	}
 	// NOTE: deliberately in listing order, not sorted: the listing order is the harness parameter.
 	return out, nil
